@@ -825,7 +825,14 @@ private:
           {
             transit_event.logger_base->backtrace_storage->process(
               [this](TransitEvent const& te, std::string_view thread_id, std::string_view thread_name)
-              { _dispatch_transit_event_to_sinks(te, thread_id, thread_name); });
+              {
+                // a failing sink must not abort the replay, otherwise the storage is never cleared
+                QUILL_TRY { _dispatch_transit_event_to_sinks(te, thread_id, thread_name); }
+#if !defined(QUILL_NO_EXCEPTIONS)
+                QUILL_CATCH(std::exception const& e) { _options.error_notifier(e.what()); }
+                QUILL_CATCH_ALL() { _options.error_notifier(std::string{"Caught unhandled exception."}); }
+#endif
+              });
           }
         }
       }
@@ -869,7 +876,14 @@ private:
         // process all records in backtrace for this logger and log them
         transit_event.logger_base->backtrace_storage->process(
           [this](TransitEvent const& te, std::string_view thread_id, std::string_view thread_name)
-          { _dispatch_transit_event_to_sinks(te, thread_id, thread_name); });
+          {
+            // a failing sink must not abort the replay, otherwise the storage is never cleared
+            QUILL_TRY { _dispatch_transit_event_to_sinks(te, thread_id, thread_name); }
+#if !defined(QUILL_NO_EXCEPTIONS)
+            QUILL_CATCH(std::exception const& e) { _options.error_notifier(e.what()); }
+            QUILL_CATCH_ALL() { _options.error_notifier(std::string{"Caught unhandled exception."}); }
+#endif
+          });
       }
     }
     else if (transit_event.macro_metadata->event() == MacroMetadata::Event::Flush)
